@@ -19,7 +19,7 @@ I30 = (1 << 30) - 1
 # ----------------------------------------------------------------------------------------------
 # program generation (ops -> samlang)
 
-PRELUDE = """import { Int } from std.boxed;
+PRELUDE = """import { Int, Bool } from std.boxed;
 import { Map } from std.map;
 import { Set } from std.set;
 import { List } from std.list;
@@ -129,7 +129,7 @@ MRG = {"0": "(k: Int, a: Option<int>, b: Option<int>) -> match a { Some(x) -> Op
        "1": f"(k: Int, a: Option<int>, b: Option<int>) -> match a {{ None -> {NONE}, Some(x) -> match b {{ None -> {NONE}, Some(y) -> Option.Some((x + y) % 1000) }} }}",
        "2": f"(k: Int, a: Option<int>, b: Option<int>) -> match a {{ None -> b, Some(x) -> match b {{ None -> Option.Some(x), Some(_) -> {NONE} }} }}"}
 SMAP = {"0": lambda c: f"(x) -> Int.init(x.value + {lit(c)})", "1": lambda c: "(x) -> Int.init(0 - x.value)",
-        "2": lambda c: f"(x) -> Int.init({lit(c)})"}
+        "2": lambda c: f"(x) -> Int.init({lit(c)})", "3": lambda c: "(x) -> x"}
 
 
 def gen_program(ops):
@@ -265,6 +265,22 @@ def gen_program(ops):
         elif op == "liter":
             body.append(f'    let _ = {R(t[1])}.iter((x) -> Process.println("~" :: Str.fromInt(x)));')
             out('"end"')
+        elif op == "lemp": out(f"Main.ob({R(t[1])}.isEmpty())")
+        elif op == "scmp2": out(f"Str.fromInt({R(t[1])}.compare({R(t[2])}, (x, y) -> 7))")
+        elif op == "bool":
+            bx, by = ("true" if t[1] == "1" else "false"), ("true" if t[2] == "1" else "false")
+            body.append(f"    let bs{n} = Set.empty<Bool>().insert(Bool.init({bx})).insert(Bool.init({by}));")
+            out(f'bs{n}.fold("", (acc, e) -> acc :: e.toString() :: ";") :: "|" :: '
+                f'Str.fromInt(Bool.init({bx}).compare(Bool.init({by}))) :: "|" :: Str.fromInt(Bool.init({bx}).intValue())')
+        elif op in ("ounw", "rexp", "runw"):
+            o = f"ov{n}"
+            body.append(f"    let {o} = Option.Some({lit(t[1])}).filter((x) -> {pred_x(t[2], t[3])});")
+            if op == "ounw":
+                out(f"Str.fromInt({o}.unwrap())")
+            elif op == "rexp":
+                out(f'Str.fromInt(Result.fromOption({o}, {lit(t[3])}).expect("boom"))')
+            else:
+                out(f'Str.fromInt(Result.fromOption({o}, {lit(t[3])}).unwrap("ignored"))')
         elif op in ("optx", "resx"):
             o = f"ov{n}"
             body.append(f"    let {o} = Option.Some({lit(t[1])}).filter((x) -> {pred_x(t[2], t[3])});")
@@ -273,7 +289,7 @@ def gen_program(ops):
                 out(f'Main.oi({o}.map((x) -> x + 1)) :: "|" :: Main.oi({o}.filter((x) -> x % 2 != 0)) :: "|" :: '
                     f'Main.oi({o}.bind((x) -> if x % 2 != 0 {{ Option.Some(x * 2) }} else {{ {NONE} }})) :: "|" :: '
                     f'Str.fromInt({o}.valueMap(-1, (x) -> x + {lit(t[3])})) :: "|" :: Main.ob({o}.isSome()) :: Main.ob({o}.isNone()) :: "|" :: '
-                    f'Main.opair(Option.both({o}, {o}.map((x) -> x + 1))) :: "|" :: Main.oi({o}.tryUnwrap())')
+                    f'Main.opair(Option.both({o}, Option.Some({lit(t[3])}).filter((x) -> x % 2 != 0))) :: "|" :: Main.oi({o}.tryUnwrap())')
             else:
                 r = f"rv{n}"
                 body.append(f"    let {r} = Result.fromOption({o}, {lit(t[3])});")
@@ -544,7 +560,7 @@ class Spec:
         if op == "sall": return [("ans", fmt_b(all(P(t[2], t[3], a) for a in s[t[1]])))]
         if op == "sany": return [("ans", fmt_b(any(P(t[2], t[3], a) for a in s[t[1]])))]
         if op == "smap":
-            c = I(t[4]); f = {"0": lambda x: x + c, "1": lambda x: -x, "2": lambda x: c}[t[3]]
+            c = I(t[4]); f = {"0": lambda x: x + c, "1": lambda x: -x, "2": lambda x: c, "3": lambda x: x}[t[3]]
             return [("s", t[1], {f(a) for a in s[t[2]]})]
         if op == "lcons": return [("l", t[1], [I(t[3])] + l[t[2]])]
         if op == "lof": return [("l", t[1], [I(t[2])])]
@@ -571,6 +587,22 @@ class Spec:
             for x in l[t[2]]: out += [x, tmod(x, 1000) + I(t[3])]
             return [("l", t[1], out)]
         if op == "lflt": return [("l", t[1], l[t[2]] + l[t[3]] + l[t[4]])]
+        if op == "lemp": return [("ans", fmt_b(not l[t[1]]))]
+        if op == "scmp2":
+            xs, ys = sorted(s[t[1]]), sorted(s[t[2]])
+            res = None
+            for a, b in zip(xs, ys):
+                res = (a - b) if a != b else 7
+                break
+            if res is None: res = 0 if len(xs) == len(ys) else (-1 if len(xs) < len(ys) else 1)
+            return [("ans", str(res))]
+        if op == "bool":
+            bx, by = t[1] == "1", t[2] == "1"
+            return [("ans", "".join(("true" if b else "false") + ";" for b in sorted({bx, by})) + f"|{int(bx) - int(by)}|{int(bx)}")]
+        if op in ("ounw", "rexp", "runw"):
+            a = I(t[1])
+            if P(t[2], t[3], a): return [("ans", str(a))]
+            return [("panic", {"ounw": "Unwrapping Option.None", "rexp": "boom", "runw": "Unwrapping Result.Error"}[op])]
         if op == "liter": return [("ans", "".join(f"{x};" for x in l[t[1]]) + "end")]
         if op in ("optx", "resx"):
             a, c = I(t[1]), I(t[3])
@@ -578,7 +610,7 @@ class Spec:
             so = fmt_opt
             if op == "optx":
                 pre = "" if o is None else f"{o};"
-                both = "none" if o is None else f"some {o},{o + 1}"
+                both = "none" if (o is None or tmod(c, 2) == 0) else f"some {o},{c}"
                 return [("ans", pre + "|".join([so(None if o is None else o + 1), so(o if (o is not None and tmod(o, 2) != 0) else None),
                         so(o * 2 if (o is not None and tmod(o, 2) != 0) else None), str(-1 if o is None else o + c),
                         fmt_b(o is not None) + fmt_b(o is None), both, so(o)]))]
@@ -600,6 +632,13 @@ def oracle(ops, answers, end):
     pre = []
     for i, line in enumerate(ops):
         pre.append(dict(dumps))
+        if line.split(" ")[0] in PANIC_OPS:
+            exp = spec.step(line)
+            if exp[0][0] == "panic":
+                if i < len(answers) or end != "panic:" + exp[0][1]:
+                    fails.append((i, "answer", f"`{line}` must panic with `{exp[0][1]}`; the program "
+                                  + (f"answered `{answers[i]}`" if i < len(answers) else f"ended with `{end}`")))
+                break
         if i >= len(answers):
             if end != "ok":
                 fails.append((i, "panic", f"program ended with `{end}` while executing this operation"))
@@ -679,6 +718,7 @@ def _short(xs):
 # ----------------------------------------------------------------------------------------------
 # known findings: signature predicates over a failing step
 
+PANIC_OPS = {"ounw", "rexp", "runw"}
 MAP_REBUILD_OPS = {"mrem", "mupd", "mfil", "mpar", "mcun", "muni", "mmrg"}
 
 
@@ -836,6 +876,20 @@ def sweep_histories():
                      "scmp s0 s3", "seq s0 s0"]
             out.append((mops, ("sweep-map", order)))
             out.append((sops, ("sweep-set", order)))
+    # functions / arms that the samlang-level coverage (vlib/coverage_sam.py, coverage/C18.txt) showed
+    # no random history reaches: List.isEmpty, the boxed Bool class, Option.both with one side None,
+    # Set.equal / compare on a proper prefix and with a non-zero extra comparator, Set.map with a
+    # function that returns its argument (the reference-equality shortcut), unwrap / expect — the
+    # panicking calls last, one per program, because a panic ends the program.
+    aux = ["lemp l0", "lcons l0 l0 3", "lemp l0", "bool 0 0", "bool 0 1", "bool 1 0", "bool 1 1",
+           "optx 5 all 3", "optx 5 all 2", "optx 5 non 3", "optx 5 non 2", "resx 5 all 3", "resx 5 non 3",
+           "sins s0 s0 1", "sins s0 s0 2", "sins s0 s0 3", "sins s1 s1 1", "sins s1 s1 2",
+           "seq s0 s1", "seq s1 s0", "seq s0 s0", "seq s2 s0", "seq s0 s2", "scmp s0 s1", "scmp s1 s0",
+           "scmp2 s0 s1", "scmp2 s1 s0", "scmp2 s0 s0", "scmp2 s2 s2", "scmp2 s2 s0",
+           "smap s3 s0 3 0", "smap s3 s2 3 0", "smap s3 s1 3 0", "seq s3 s1",
+           "ounw 5 all 0", "rexp 5 all 0", "runw 5 all 0"]
+    for last in ("ounw 5 non 0", "rexp 5 non 4", "runw 5 non 4"):
+        out.append((aux + [last], ("sweep-aux", last.split(" ")[0])))
     return out
 
 
@@ -883,7 +937,7 @@ def steer(histories, stats):
         changed = False
         for hi, (h, o) in enumerate(zip(histories, outs)):
             for i, a in enumerate(o):
-                if a in ("panic", "oof"):
+                if a in ("panic", "oof") and h[i].split(" ")[0] not in PANIC_OPS:
                     stats["steered_away"] = stats.get("steered_away", 0) + 1
                     del h[i]; changed = True
                     break
